@@ -156,3 +156,63 @@ type verifRWC struct {
 func (c *verifRWC) Read(p []byte) (int, error)  { return c.r.Read(p) }
 func (c *verifRWC) Write(p []byte) (int, error) { return c.w.Write(p) }
 func (c *verifRWC) Close() error                { c.closed = true; return nil }
+
+// VerifH_C10_SendOrder: the moment the first bytes of a request can reach the
+// peer, the reply may arrive - read by whichever goroutine holds the receive
+// token. So at every Write to the transport that completes a frame header,
+// the frame's tag must already be in the pending table (or the table must be
+// locked by the sender, which keeps a receiver from looking it up); otherwise
+// there is a schedule in which the reply meets an unknown tag, every pending
+// call fails and the sender waits for a reply that was consumed. After each
+// call the table is empty again.
+func VerifH_C10_SendOrder() {
+	f := &verifE2EFile{shortAt: -1, wshortAt: -1}
+	s := NewServer(verifE2EAttacher{f})
+	cs := verifNewConn(s)
+	l := &verifLoop{cs: cs}
+	c, err := NewClient(l, WithMessageSize(8192))
+	verifAssume(err == nil)
+	frames := 0
+	l.onWrite = func(sofar []byte) {
+		if len(sofar) < 7 {
+			return
+		}
+		tg := tag(uint16(sofar[5]) | uint16(sofar[6])<<8)
+		frames++
+		verifAssert(tg != noTag, "a request never carries NOTAG")
+		if c.pendingMu.TryLock() {
+			_, ok := c.pending[tg]
+			n := len(c.pending)
+			c.pendingMu.Unlock()
+			verifAssert(ok, "the tag is registered as pending before its request can reach the peer")
+			verifAssert(n == 1, "one call outstanding, one tag pending")
+		}
+	}
+	idle := func(what string) {
+		c.pendingMu.Lock()
+		n := len(c.pending)
+		c.pendingMu.Unlock()
+		verifAssert(n == 0, "no tag stays pending after its call returned ("+what+")")
+	}
+	rf, err := c.Attach("")
+	verifAssume(err == nil)
+	idle("Attach")
+	_, _, err = rf.Open(ReadWrite)
+	verifAssume(err == nil)
+	idle("Open")
+	p := verifNondetBytes(verifChoice(3))
+	_, err = rf.WriteAt(p, int64(verifChoice(2)))
+	verifAssert(err == nil, "WriteAt answered")
+	idle("WriteAt")
+	q := make([]byte, 2)
+	_, _ = rf.ReadAt(q, 0)
+	idle("ReadAt")
+	_, _, _, err = rf.GetAttr(AttrMaskAll)
+	verifAssert(err == nil, "GetAttr answered")
+	idle("GetAttr")
+	err = rf.Close()
+	verifAssert(err == nil, "Close answered")
+	idle("Close")
+	verifAssert(frames >= 6, "every call wrote a frame")
+	verifReach("send-order-done")
+}
